@@ -289,7 +289,7 @@ def reassign(z, old, new):
     return True
 
 
-def bad_assign(z, pick):
+def bad_assign(z, pick, prefer=None):
     """One invalid attribute assignment on z through a public setter; it must be refused (ValueError) -- and, as the caller goes on to use
     the object, must have left it exactly as it was.  Returns the attribute name."""
     from .core import Violation
@@ -297,10 +297,12 @@ def bad_assign(z, pick):
     table = [("sample_rate", -1 * u.Hz), ("sample_rate", 5.0), ("sample_rate", 3 * u.s), ("start_time", "not a time"),
              ("start_time", Time([58000.0, 58001.0], format="mjd")), ("start_time", 5 * u.s), ("start_time", 59867.25),
              ("center_freq", 5.0), ("center_freq", np.array([1.0, 2.0]) * u.Hz), ("center_freq", 1 * u.s),
-             ("chan_bw", -2 * u.MHz), ("chan_bw", 0 * u.Hz), ("chan_bw", 3 * u.s), ("chan_bw", np.array([1.0, 2.0]) * u.Hz),
+             ("chan_bw", -2 * u.MHz), ("chan_bw", 0 * u.Hz), ("chan_bw", 3 * u.s), ("chan_bw", np.array([1.0, 2.0]) * u.Hz), ("chan_bw", np.array([2.5]) * u.kHz), ("sample_rate", np.array([[1.0]]) * u.MHz),
              ("freq_align", "middle"), ("freq_align", None), ("pol_type", "Circular"), ("pol_type", None), ("pol_type", "elliptical"),
              ("meta", 5), ("meta", "abc")]
     ok = [(a, v) for a, v in table if isinstance(getattr(type(z), a, None), property)]
+    if prefer and pick % 2 and any(a == prefer for a, _ in ok):
+        ok = [(a, v) for a, v in ok if a == prefer]  # every other time: the attribute the calling check is about
     attr, val = ok[pick % len(ok)]
     try:
         setattr(z, attr, val)
